@@ -8,6 +8,98 @@ import Drand.DKG.Process
 namespace Drand.DKG
 open Drand
 
+/-! ### proof infrastructure -/
+
+section helpers
+private theorem bind_ok_iff {α β} {x : Except Err α} {f : α → Except Err β} {b : β} :
+    (x >>= f) = .ok b ↔ ∃ a, x = .ok a ∧ f a = .ok b := by
+  cases x <;> simp [bind, Except.bind]
+
+private theorem guard_ok_iff {c : Prop} [Decidable c] {e : Err} {u : Unit} :
+    (if c then (throw e : Except Err Unit) else pure ()) = .ok u ↔ ¬ c := by
+  split <;> simp_all [throw, throwThe, MonadExcept.throw, pure, Except.pure]
+
+private theorem pure_ok_iff {α} {a b : α} : (pure a : Except Err α) = .ok b ↔ a = b := by
+  simp [pure, Except.pure]
+
+private theorem throw_ne_ok {α} {e : Err} {b : α} : (throw e : Except Err α) = .ok b ↔ False := by
+  simp [throw, throwThe, MonadExcept.throw]
+
+private theorem ite_throw_ok_iff {α β} {c : Prop} [Decidable c] {e : Err} {k : α → Except Err β}
+    {r : Except Err β} {b : β} :
+    (if c then ((throw e : Except Err α) >>= k) else r) = .ok b ↔ ¬ c ∧ r = .ok b := by
+  split <;> simp_all [throw, throwThe, MonadExcept.throw, bind, Except.bind]
+
+private theorem ite_throw_ok_iff' {β} {c : Prop} [Decidable c] {e : Err}
+    {r : Except Err β} {b : β} :
+    (if c then (throw e : Except Err β) else r) = .ok b ↔ ¬ c ∧ r = .ok b := by
+  split <;> simp_all [throw, throwThe, MonadExcept.throw]
+
+private theorem validChange_ok {a b : Status} {u : Unit} :
+    validChange a b = .ok u ↔ Gen.isValidStateChange a b = true := by
+  unfold validChange; split <;> simp_all
+end helpers
+
+local macro "exc" " at " h:ident : tactic =>
+  `(tactic| simp only [bind_ok_iff, ite_throw_ok_iff, ite_throw_ok_iff', guard_ok_iff, pure_ok_iff, throw_ne_ok,
+      validChange_ok, exists_const, false_and, and_false, exists_false] at $h:ident)
+
+
+private theorem verifyMessage_ok {m : Meta} {pk : Packet} {t : Terms} {u} (h : verifyMessage m pk t = .ok u) :
+    ∃ part, part ∈ t.remaining ++ t.joining ∧ part.addr = m.addr ∧ m.sigKey = part.key ∧
+      m.sigMsg = messageForSigning m.beaconID pk t := by
+  unfold verifyMessage at h
+  split at h
+  · cases h
+  · rename_i part hf
+    split at h
+    · rename_i hc
+      simp only [Bool.and_eq_true, beq_iff_eq, decide_eq_true_eq] at hc
+      have h1 := List.mem_of_find?_eq_some hf
+      have h2 := List.find?_some hf
+      simp only [beq_iff_eq] at h2
+      exact ⟨part, h1, h2, hc.1, hc.2⟩
+    · cases h
+
+private theorem packet_changed {p : Proc} {m : Meta} {pk : Packet} {now : Int} (h : (p.packet m pk now).1 ≠ p) :
+    ∃ n, applyPacket p.base p.me pk m.addr now = .ok n ∧ verifyMessage m pk (termsFromState n) = .ok () ∧
+      (p.packet m pk now).1.current = some n := by
+  unfold Proc.packet at h ⊢
+  split
+  · rename_i hc; rw [if_pos hc] at h; exact (h rfl).elim
+  rename_i hc; rw [if_neg hc] at h
+  split
+  · rename_i hc; rw [if_pos hc] at h; exact (h rfl).elim
+  rename_i hc; rw [if_neg hc] at h
+  split
+  · rename_i e he; rw [he] at h; exact (h rfl).elim
+  rename_i n hn
+  split
+  · rename_i e he; rw [hn] at h; simp only [he] at h; exact (h rfl).elim
+  rename_i hv
+  refine ⟨n, hn, hv, ?_⟩
+  cases pk <;> simp only [] <;> (try split) <;> rfl
+
+private theorem flatMap_pair_length {α β} (f g : α → β) (l : List α) :
+    (l.flatMap (fun p => [f p, g p])).length = 2 * l.length := by
+  induction l with
+  | nil => rfl
+  | cons a l ih => simp only [List.flatMap_cons, List.length_append, List.length_cons, List.length_nil, ih]; omega
+
+private theorem flatMap_sig (f : Participant → String) :
+    ∀ (l l' : List Participant),
+      l.flatMap (fun p => [Seg.str (f p), Seg.bytes p.sig]) = l'.flatMap (fun p => [Seg.str (f p), Seg.bytes p.sig]) →
+      l.map (·.sig) = l'.map (·.sig)
+  | [], [], _ => rfl
+  | [], _ :: _, h => by simp at h
+  | _ :: _, [], h => by simp at h
+  | a :: l, b :: l', h => by
+    simp only [List.flatMap_cons, List.cons_append, List.nil_append, List.cons.injEq, Seg.bytes.injEq] at h
+    simp only [List.map_cons, List.cons.injEq]
+    exact ⟨h.2.1, flatMap_sig f l l' h.2.2⟩
+
+/-! ### the property -/
+
 /-- a packet that changes anything was signed, over the message derived from the very state being stored, by the key
 that the stored state's own participant lists record for the claimed sender -/
 theorem c09_signed_by_listed (p : Proc) (m : Meta) (pk : Packet) (now : Int)
@@ -15,7 +107,9 @@ theorem c09_signed_by_listed (p : Proc) (m : Meta) (pk : Packet) (now : Int)
     ∃ next part, (p.packet m pk now).1.current = some next ∧
       part ∈ next.remaining ++ next.joining ∧ part.addr = m.addr ∧ m.sigKey = part.key ∧
       m.sigMsg = messageForSigning m.beaconID pk (termsFromState next) := by
-  sorry
+  obtain ⟨n, -, hv, hc⟩ := packet_changed h
+  obtain ⟨part, h1, h2, h3, h4⟩ := verifyMessage_ok hv
+  exact ⟨n, part, hc, h1, h2, h3, h4⟩
 
 /-- only the leader proposes, executes or aborts; only a remaining member accepts or rejects, and only for itself -/
 theorem c09_role (p : Proc) (m : Meta) (pk : Packet) (now : Int) (h : (p.packet m pk now).1 ≠ p) :
@@ -26,14 +120,154 @@ theorem c09_role (p : Proc) (m : Meta) (pk : Packet) (now : Int) (h : (p.packet 
        | .abort _ => (next.leader.map (·.addr)) = some m.addr
        | .accept a => a.addr = m.addr ∧ contains next.remaining a = true
        | .reject r => r.addr = m.addr ∧ contains next.remaining r = true) := by
+  -- FALSE as stated (left unproved on purpose): refuted by `c09_role_false` below; what holds is `c09_role_corrected`.
   sorry
+
+/-
+`c09_role` does NOT hold for the code as it is. `DBState.Executing` sends a node that is listed as *leaving* to
+`Left` before it compares the sender with the leader, so an `execute` packet signed by ANY member listed in the
+proposal (remaining or joining) moves a leaver from Proposed to Left. Witness below (kernel-checked): the leaver "x"
+holds the proposal of leader "l"; the remaining member "r" signs `execute`; the packet is stored, the state is `Left`,
+and the stored leader is "l", not the sender "r".
+(Second, degenerate divergence: for a record with `leader = none` -- which no proposal produces -- the model compares the
+sender with the empty address, so the conclusion `… = some m.addr` fails there too; `c09_role_no_leader_counterexample`.)
+-/
+
+/-- the statement of `c09_role` as given -/
+def RoleStatement : Prop :=
+  ∀ (p : Proc) (m : Meta) (pk : Packet) (now : Int), (p.packet m pk now).1 ≠ p →
+    ∃ next, (p.packet m pk now).1.current = some next ∧
+      (match pk with
+       | .proposal t => t.leader.addr = m.addr ∧ next.leader = some t.leader
+       | .execute _ => (next.leader.map (·.addr)) = some m.addr
+       | .abort _ => (next.leader.map (·.addr)) = some m.addr
+       | .accept a => a.addr = m.addr ∧ contains next.remaining a = true
+       | .reject r => r.addr = m.addr ∧ contains next.remaining r = true)
+
+def roleL : Participant := { addr := "l", key := [2], sig := [2], scheme := "pedersen-bls-chained" }
+def roleR : Participant := { addr := "r", key := [3], sig := [3], scheme := "pedersen-bls-chained" }
+def roleX : Participant := { addr := "x", key := [4], sig := [4], scheme := "pedersen-bls-chained" }
+/-- the leaver `x` holds a received epoch-2 proposal led by `l` -/
+def roleState : DBState :=
+  { beaconID := "default", epoch := 2, state := .proposed, threshold := 2, timeout := 100,
+    schemeID := "pedersen-bls-chained", genesisTime := 5, genesisSeed := [9], catchupSec := 1, periodSec := 3,
+    leader := some roleL, remaining := [roleL, roleR], leaving := [roleX] }
+def roleProc : Proc := { beaconID := "default", me := roleX, current := some roleState }
+/-- an `execute` packet signed by the remaining member `r`, who is not the leader -/
+def roleMeta : Meta :=
+  { beaconID := "default", addr := "r", sigId := "0011223344", sigKey := roleR.key,
+    sigMsg := messageForSigning "default" (.execute 0) (termsFromState roleState) }
+
+theorem c09_role_counterexample :
+    (roleProc.packet roleMeta (.execute 0) 0).1.current.map (fun n => (n.state, n.leader.map (·.addr))) =
+      some (.left, some "l") ∧
+    roleProc.current.map (·.state) = some .proposed ∧ roleMeta.addr = "r" := by
+  decide
+
+theorem c09_role_false : ¬ RoleStatement := by
+  intro H
+  obtain ⟨h1, h2, -⟩ := c09_role_counterexample
+  have hne : (roleProc.packet roleMeta (.execute 0) 0).1 ≠ roleProc := by
+    intro he; rw [he] at h1
+    revert h1; decide
+  obtain ⟨next, hc, hr⟩ := H roleProc roleMeta (.execute 0) 0 hne
+  rw [hc] at h1
+  simp only [Option.map_some, Option.some.injEq, Prod.mk.injEq] at h1
+  simp only [h1.2] at hr
+  revert hr; decide
+
+
+/-- the degenerate case: a record without a leader takes an `abort` from the empty address -/
+def roleE : Participant := { addr := "", key := [5], sig := [5], scheme := "pedersen-bls-chained" }
+def roleStateNoLeader : DBState := { roleState with leader := none, remaining := [roleE, roleR] }
+def roleMetaNoLeader : Meta :=
+  { beaconID := "default", addr := "", sigId := "0011223344", sigKey := roleE.key,
+    sigMsg := messageForSigning "default" (.abort "none") (termsFromState roleStateNoLeader) }
+
+theorem c09_role_no_leader_counterexample :
+    (Proc.packet { roleProc with current := some roleStateNoLeader } roleMetaNoLeader (.abort "none") 0).1.current.map
+      (fun n => (n.state, n.leader.map (·.addr))) = some (.aborted, none) := by
+  decide
+
+private theorem proposed_role {d : DBState} {me t sender now n} (h : d.proposed me t sender now = .ok n) :
+    t.leader.addr = sender ∧ n.leader = some t.leader := by
+  unfold DBState.proposed at h
+  exc at h
+  obtain ⟨-, h1, _, -, -, rfl⟩ := h
+  exact ⟨by simpa using h1, rfl⟩
+
+private theorem aborted_role {d : DBState} {sender n} (h : d.aborted sender = .ok n) :
+    (n.leader.map (·.addr)).getD "" = sender := by
+  unfold DBState.aborted at h
+  exc at h
+  obtain ⟨-, h1, rfl⟩ := h
+  simpa using h1
+
+private theorem executing_role {d : DBState} {me sender now n} (h : d.executing me sender now = .ok n) :
+    (n.leader.map (·.addr)).getD "" = sender ∨ (n.state = .left ∧ contains n.leaving me = true) := by
+  unfold DBState.executing at h
+  exc at h
+  obtain ⟨-, h⟩ := h
+  split at h
+  · rename_i hc
+    unfold DBState.left at h
+    exc at h
+    obtain ⟨-, -, -, rfl⟩ := h
+    simp only [Bool.and_eq_true] at hc
+    exact .inr ⟨rfl, hc.1⟩
+  · exc at h
+    obtain ⟨-, -, h1, rfl⟩ := h
+    left
+    have : sender = (d.leader.map (·.addr)).getD "" := by simpa using h1
+    exact this.symm
+
+private theorem receivedAcceptance_role {d : DBState} {them sender n} (h : d.receivedAcceptance them sender = .ok n) :
+    them.addr = sender ∧ contains n.remaining them = true := by
+  unfold DBState.receivedAcceptance at h
+  exc at h
+  obtain ⟨-, h1, -, h2, rfl⟩ := h
+  have : sender = them.addr := by simpa using h2
+  exact ⟨this.symm, by simpa using h1⟩
+
+private theorem receivedRejection_role {d : DBState} {them sender n} (h : d.receivedRejection them sender = .ok n) :
+    them.addr = sender ∧ contains n.remaining them = true := by
+  unfold DBState.receivedRejection at h
+  exc at h
+  obtain ⟨-, h1, -, h2, rfl⟩ := h
+  have : sender = them.addr := by simpa using h2
+  exact ⟨this.symm, by simpa using h1⟩
+
+/-- the role rule that does hold: as `c09_role`, except that (1) an `execute` packet from any listed member (not only
+the leader) moves a *leaver* to `Left`, and (2) for a record without a leader (`leader = none`, which no proposal
+produces) the code compares the sender with the empty address -/
+theorem c09_role_corrected (p : Proc) (m : Meta) (pk : Packet) (now : Int) (h : (p.packet m pk now).1 ≠ p) :
+    ∃ next, (p.packet m pk now).1.current = some next ∧
+      (match pk with
+       | .proposal t => t.leader.addr = m.addr ∧ next.leader = some t.leader
+       | .execute _ => (next.leader.map (·.addr)).getD "" = m.addr ∨
+                       (next.state = .left ∧ contains next.leaving p.me = true)
+       | .abort _ => (next.leader.map (·.addr)).getD "" = m.addr
+       | .accept a => a.addr = m.addr ∧ contains next.remaining a = true
+       | .reject r => r.addr = m.addr ∧ contains next.remaining r = true) := by
+  obtain ⟨n, ha, -, hc⟩ := packet_changed h
+  refine ⟨n, hc, ?_⟩
+  cases pk with
+  | proposal t => exact proposed_role ha
+  | accept a => exact receivedAcceptance_role ha
+  | reject r => exact receivedRejection_role ha
+  | execute _ => exact executing_role ha
+  | abort _ => exact aborted_role ha
 
 /-- a signature made by anybody who is not listed (under the claimed address) in the terms being applied changes nothing -/
 theorem c09_unlisted_key_rejected (p : Proc) (m : Meta) (pk : Packet) (now : Int)
     (h : ∀ next, applyPacket p.base p.me pk m.addr now = .ok next →
         ∀ part ∈ next.remaining ++ next.joining, part.addr = m.addr → part.key ≠ m.sigKey) :
     (p.packet m pk now).1 = p := by
-  sorry
+  apply Classical.byContradiction
+  intro hne
+  obtain ⟨n, ha, hv, -⟩ := packet_changed hne
+  obtain ⟨part, h1, h2, h3, -⟩ := verifyMessage_ok hv
+  exact h n ha part h1 h2 h3.symm
 
 /-- the fields the signature covers: two terms with the same signed message agree on every one of them -/
 theorem c09_terms_covered (b : String) (pk : Packet) (t t' : Terms)
@@ -43,14 +277,26 @@ theorem c09_terms_covered (b : String) (pk : Packet) (t t' : Terms)
     t.periodSec = t'.periodSec ∧ t.genesisTime = t'.genesisTime ∧ t.leader.sig = t'.leader.sig ∧
     t.joining.map (·.sig) = t'.joining.map (·.sig) ∧ t.remaining.map (·.sig) = t'.remaining.map (·.sig) ∧
     t.leaving.map (·.sig) = t'.leaving.map (·.sig) := by
-  sorry
+  unfold messageForSigning at h
+  simp only [List.append_assoc] at h
+  have h := List.append_cancel_left h
+  have h := (List.append_inj h rfl).2
+  simp only [List.cons_append, List.nil_append, List.cons.injEq, Seg.u32.injEq, Seg.time.injEq, Seg.bytes.injEq] at h
+  obtain ⟨-, -, e1, -, e2, e3, e4, e5, e6, -, e7, h⟩ := h
+  have hJ := List.append_inj h (by rw [flatMap_pair_length, flatMap_pair_length, hl.1])
+  have hR := List.append_inj hJ.2 (by rw [flatMap_pair_length, flatMap_pair_length, hl.2])
+  exact ⟨e1, e3, e4, e5, e6, e7, e2, flatMap_sig _ _ _ hJ.1, flatMap_sig _ _ _ hR.1, flatMap_sig _ _ _ hR.2⟩
 
 /-- … and what it does NOT cover: the genesis seed and the public keys of the participants are not in the signed
 message (two different term sets, one signature) -/
 theorem c09_seed_and_keys_not_covered :
     ∃ t t' : Terms, (t.genesisSeed ≠ t'.genesisSeed ∧ t.remaining.map (·.key) ≠ t'.remaining.map (·.key)) ∧
       ∀ b pk, messageForSigning b pk t = messageForSigning b pk t' := by
-  sorry
+  refine ⟨{ (default : Terms) with genesisSeed := [1], remaining := [{ addr := "a", key := [1], sig := [7] }] },
+          { (default : Terms) with genesisSeed := [2], remaining := [{ addr := "a", key := [2], sig := [7] }] },
+          ⟨by decide, by decide⟩, ?_⟩
+  intro b pk
+  rfl
 
 /-
 "A node that already belongs to the group authenticates members against the public keys recorded in its current
@@ -79,7 +325,15 @@ theorem c09_substitution_counterexample :
                       sigMsg := messageForSigning "default" (.proposal forgedTerms) forgedTerms }
     ∃ next, (p.packet m (.proposal forgedTerms) 0).1.current = some next ∧ next.state = .proposed ∧
       next.leader.map (·.key) = some [66] := by
-  sorry
+  intro p m
+  have h : (p.packet m (.proposal forgedTerms) 0).1.current.map (fun n => (n.state, n.leader.map (·.key))) =
+      some (.proposed, some [66]) := by decide
+  cases hc : (p.packet m (.proposal forgedTerms) 0).1.current with
+  | none => rw [hc] at h; cases h
+  | some next =>
+    rw [hc] at h
+    simp only [Option.map_some, Option.some.injEq, Prod.mk.injEq] at h
+    exact ⟨next, rfl, h.1, h.2⟩
 
 /-- the corrected rule (keys of remaining and leaving members must equal the keys recorded in the current group)
 would refuse it: for a proposal accepted by a member under that rule, the verification key is the recorded one -/
@@ -89,6 +343,12 @@ def keysMatchGroup (g : GroupLite) (t : Terms) : Bool :=
 theorem c09_member_uses_group_keys_corrected (g : GroupLite) (t : Terms) (part : Participant)
     (hk : keysMatchGroup g t = true) (hp : part ∈ t.remaining) :
     ∃ n ∈ g.nodes, n.addr = part.addr ∧ n.key = part.key := by
-  sorry
+  unfold keysMatchGroup at hk
+  rw [List.all_eq_true] at hk
+  have := hk part (List.mem_append_left _ hp)
+  rw [List.any_eq_true] at this
+  obtain ⟨n, hn, h⟩ := this
+  simp only [Bool.and_eq_true, beq_iff_eq] at h
+  exact ⟨n, hn, h.1, h.2⟩
 
 end Drand.DKG
